@@ -1120,3 +1120,9 @@ PROPS["C01"]["claim"] = PROPS["C01"]["claim"] + " Publication into the log overl
 PROPS["C01"]["does_not_cover"] = [x for x in PROPS["C01"]["does_not_cover"] if "Log::end_record" not in x] + ["the first half of Log::end_record (choosing / creating the log file, LogChange::flush_to_file writing the record bytes: U51 bounded) and the reader side of LogWriter (closures)"]
 PROPS["C04"]["verus_units"] = list(PROPS["C04"].get("verus_units", [])) + ["log_publish"]
 PROPS["C04"]["claim"] = PROPS["C04"]["claim"] + " The record id iterators re-position on (LogOverlays::last_record_id of the column) is advanced by Log::end_record for every column a record writes values of (Verus, unit log_publish)."
+
+# ---------------------------------------------------------------- U60 extension: the InsertTree arm of claim_tree_values (closes the gap between preparation and packing)
+UNIT_META["tree_claim"]["functions"] = UNIT_META["tree_claim"]["functions"] + ["column::HashColumn::claim_tree_values (fragment: the InsertTree arm)"]
+UNIT_META["tree_claim"]["assumes"] = [x for x in UNIT_META["tree_claim"]["assumes"] if "the loop of claim_tree_values" not in x] + ["claim_tree_values fragment: the table lock / `self.as_ref(&tables.value)` are the `values` parameter of the wrapper; `Default::default()` of the three maps is the contract new_empty; `for (tier, count) in tier_count` (iteration by value) becomes repeated removal of an arbitrary entry; `values.tables[tier].claim_entries(count)` is a contract returning exactly `count` slots (proved of the real function by unit claim_entries, U73); fewer than 2^64 new nodes per tier"]
+PROPS["C10"]["claim"] = PROPS["C10"]["claim"] + " The InsertTree arm of claim_tree_values as a whole (Verus, fragment): the root is packed in the same format, every tier gets exactly the slots preparation counted before any node is packed (so packing cannot run out of slots or leave one over), a tree is accepted only if every new node's child count fits the count byte."
+PROPS["C10"]["does_not_cover"] = [x for x in PROPS["C10"]["does_not_cover"] if "the loop of claim_tree_values" not in x]
